@@ -1,3 +1,106 @@
-From VZ Require Import Base.Prelude Model.Service.
-Theorem C01_placeholder : True. Proof. exact I. Qed.
-Print Assumptions C01_placeholder.
+(* C01 — trial lifecycle: legal transitions only, completed trials immutable, illegal calls fail and change nothing.
+   Statements only; `step s (rpc, oracle)` is one RPC on the model of the service (Model/Service.v). *)
+From VZ Require Import Base.Prelude Model.Service Proofs.ServiceP.
+
+(* ---- illegal calls: documented error class, stored data unchanged (every state, every argument) *)
+Theorem C01_missing_study_fails_unchanged : forall s r po k,
+  rpc_key r = Some k -> get_node k (nodes s) = None -> step s (r, po) = (s, Failed ENotFound).
+Proof. exact missing_study. Qed.
+Print Assumptions C01_missing_study_fails_unchanged.
+
+Theorem C01_inactive_study_fails_unchanged : forall s r po k n,
+  rpc_key r = Some k -> mutating r = true -> get_node k (nodes s) = Some n -> immutable (n_study n) = true ->
+  step s (r, po) = (s, Failed EImmutableStudy).
+Proof. exact immutable_study. Qed.
+Print Assumptions C01_inactive_study_fails_unchanged.
+
+Theorem C01_missing_trial_fails_unchanged : forall s r po k n id,
+  rpc_key r = Some k -> rpc_trial r = Some id -> get_node k (nodes s) = Some n -> immutable (n_study n) = false ->
+  get_trial id (n_trials n) = None -> step s (r, po) = (s, Failed ENotFound).
+Proof. exact missing_trial. Qed.
+Print Assumptions C01_missing_trial_fails_unchanged.
+
+Theorem C01_complete_non_active_fails_unchanged : forall s k n id t final inf po,
+  get_node k (nodes s) = Some n -> immutable (n_study n) = false -> get_trial id (n_trials n) = Some t ->
+  trial_mutable t = false -> step s (CompleteTrial k id final inf, po) = (s, Failed EImmutableTrial).
+Proof. exact complete_immutable_trial. Qed.
+Print Assumptions C01_complete_non_active_fails_unchanged.
+
+Theorem C01_earlystop_non_active_fails_unchanged : forall s k n id t rc po,
+  get_node k (nodes s) = Some n -> immutable (n_study n) = false -> get_trial id (n_trials n) = Some t ->
+  trial_mutable t = false -> step s (CheckEarlyStop rc k id, po) = (s, Failed EImmutableTrial).
+Proof. exact earlystop_immutable_trial. Qed.
+Print Assumptions C01_earlystop_non_active_fails_unchanged.
+
+(* measuring a non-active trial: ImmutableTrial; an INFEASIBLE trial is answered unchanged (code-documented no-op) *)
+Theorem C01_measure_non_active_unchanged : forall s k n id t m po,
+  get_node k (nodes s) = Some n -> immutable (n_study n) = false -> get_trial id (n_trials n) = Some t ->
+  trial_mutable t = false ->
+  step s (AddTrialMeasurement k id m, po) =
+    (s, if tstate_eqb (t_state t) INFEASIBLE then Done (RpTrial t) else Failed EImmutableTrial).
+Proof. exact measure_immutable_trial. Qed.
+Print Assumptions C01_measure_non_active_unchanged.
+
+(* stopping a non-active trial: no-op on STOPPING / SUCCEEDED (client_abc), ImmutableTrial otherwise; nothing changes *)
+Theorem C01_stop_non_active_unchanged : forall s k n id t po,
+  get_node k (nodes s) = Some n -> immutable (n_study n) = false -> get_trial id (n_trials n) = Some t ->
+  t_state t <> ACTIVE ->
+  step s (StopTrial k id, po) =
+    (s, match t_state t with STOPPING | SUCCEEDED => Done (RpTrial t) | _ => Failed EImmutableTrial end).
+Proof. exact stop_non_active_trial. Qed.
+Print Assumptions C01_stop_non_active_unchanged.
+
+(* ---- legal trial-level calls: exactly one stored trial is rewritten, by a legal transition (trans_ok: same id and
+        parameters, state moves forward in REQUESTED -> ACTIVE -> STOPPING -> SUCCEEDED|INFEASIBLE, completed trials
+        keep state / measurements / final measurement) *)
+Theorem C01_complete_effect : forall s k n id t final inf po,
+  get_node k (nodes s) = Some n -> immutable (n_study n) = false -> get_trial id (n_trials n) = Some t ->
+  trial_mutable t = true -> (final <> [] \/ inf = true \/ t_meas t <> []) ->
+  exists t', step s (CompleteTrial k id final inf, po) = (put_trial s k n t', Done (RpTrial t')) /\
+             trans_ok t t' /\ t_meas t' = t_meas t /\ t_md t' = t_md t /\ t_client t' = t_client t /\
+             t_state t' = (if inf then INFEASIBLE else SUCCEEDED).
+Proof. exact complete_effect. Qed.
+Print Assumptions C01_complete_effect.
+
+Theorem C01_measure_effect : forall s k n id t m po,
+  get_node k (nodes s) = Some n -> immutable (n_study n) = false -> get_trial id (n_trials n) = Some t ->
+  trial_mutable t = true ->
+  let t' := mkT (t_id t) (t_state t) (t_client t) (t_params t) (t_meas t ++ [m]) (t_final t) (t_md t) in
+  step s (AddTrialMeasurement k id m, po) = (put_trial s k n t', Done (RpTrial t')) /\ trans_ok t t'.
+Proof. exact measure_effect. Qed.
+Print Assumptions C01_measure_effect.
+
+Theorem C01_stop_effect : forall s k n id t po,
+  get_node k (nodes s) = Some n -> immutable (n_study n) = false -> get_trial id (n_trials n) = Some t ->
+  t_state t = ACTIVE ->
+  step s (StopTrial k id, po) = (put_trial s k n (set_state t STOPPING), Done (RpTrial (set_state t STOPPING))) /\
+  trans_ok t (set_state t STOPPING).
+Proof. exact stop_effect. Qed.
+Print Assumptions C01_stop_effect.
+
+(* put_trial is a frame: the addressed trial reads the new value, every other trial, study, operation reads as before *)
+Theorem C01_rewrite_is_local : forall s k n t' t0,
+  get_node k (nodes s) = Some n -> get_trial (t_id t') (n_trials n) = Some t0 ->
+  (exists n', get_node k (nodes (put_trial s k n t')) = Some n' /\ n_study n' = n_study n /\ n_ops n' = n_ops n /\
+              n_es n' = n_es n /\ get_trial (t_id t') (n_trials n') = Some t' /\
+              forall id, id <> t_id t' -> get_trial id (n_trials n') = get_trial id (n_trials n)) /\
+  (forall k2, skey_eqb k k2 = false -> get_node k2 (nodes (put_trial s k n t')) = get_node k2 (nodes s)) /\
+  owners (put_trial s k n t') = owners s.
+Proof. exact put_trial_frame. Qed.
+Print Assumptions C01_rewrite_is_local.
+
+(* non-vacuity: a reachable state with an ACTIVE trial meets the hypotheses of the effect theorems *)
+Example C01_nonvacuous :
+  let s := run_all [(CreateStudy 1 1 false (mkS SS_ACTIVE [(1%N, true)] []), PFail EOther);
+                    (SuggestTrials (1, 1)%N 1 1, PDeliver [42%N] [] [])] init_state in
+  exists n t, get_node (1, 1)%N (nodes s) = Some n /\ immutable (n_study n) = false /\
+              get_trial 1 (n_trials n) = Some t /\ trial_mutable t = true.
+Proof. vm_compute. eexists. eexists. repeat split; reflexivity. Qed.
+
+(* FULL statement (not proved as one theorem): for every history and every trial present before and after a step,
+   trans_ok holds.  Proved above for CompleteTrial / AddTrialMeasurement / StopTrial and all failing calls;
+   SuggestTrials (REQUESTED -> ACTIVE inside loops), CreateTrial / Delete*, UpdateMetadata and CheckEarlyStop are
+   covered by the correspondence check and the per-step monitor only. *)
+Definition C01_frame_full : Prop := forall s ro k n n' id t t',
+  get_node k (nodes s) = Some n -> get_node k (nodes (step_state s ro)) = Some n' ->
+  get_trial id (n_trials n) = Some t -> get_trial id (n_trials n') = Some t' -> trans_ok t t'.
